@@ -98,7 +98,11 @@ func (Engine) Execute(t *testing.T, cfg simkit.RunConfig, scenario any) *simkit.
 	res.Nontrivial = done >= 2 && (faults > 0 || len(sc.Txns) >= 2)
 	res.Stats["runs.with-faults"] = b2i(faults > 0)
 	for _, p := range w.Net.Panics {
-		res.Violations = append(res.Violations, simkit.Violation{Property: cfg.Property, Class: "backend-panic", Sig: firstWords(p, 4), Detail: p})
+		sig := firstWords(p, 4)
+		if strings.Contains(p, "KvScan") && strings.Contains(p, "reverse:true") && !strings.Contains(p, "start_key:") {
+			sig = "riter-unbounded-upper " + sig
+		}
+		res.Violations = append(res.Violations, simkit.Violation{Property: cfg.Property, Class: "backend-panic", Sig: sig, Detail: p})
 	}
 	if s.Aborted == "" {
 		if !janitorOK {
